@@ -18,7 +18,7 @@ BOUND = {"quick": "k = 0..40 x ne = 1..12 x 2 settings on a 6-cell base (first c
          "thorough": "same on an 11-cell base incl. mixed lengths, all sub-tissues of an 11-cell base, depth 3"}
 ASSUMPTIONS = ["contraction is only defined when the two-point border interfaces are pairwise vertex-disjoint; chained ones (the library refuses them) give no verdict",
                "a contracted pair of vertices is identified with its new midpoint vertex when cycles and interfaces are compared"]
-REQUIRED_TAGS = {"all": ["lost_points", "contracted", "unchanged_short", "idempotence_checked", "negative_coordinates", "ne1", "border_junction_3cells"]}
+REQUIRED_TAGS = {"all": ["lost_points", "contracted", "unchanged_short", "idempotence_checked", "negative_coordinates", "ne1", "border_junction_3cells", "defaults_omitted"]}
 
 
 def snapshot(v, e, c):
@@ -267,6 +267,25 @@ class Resampling:
             prob = RM.check_mesh(v, e, c)
             if prob:
                 viol.append({"what": "mesh returned by generate_mesh is inconsistent", "detail": prob[:3]})
+            if len(d["ops"]) == 1 and (ne == 4 or rse):
+                # the same call with the arguments that equal their defaults (ne=4, replace_short_edges=True) left out
+                kw = {}
+                if ne != 4:
+                    kw["ne"] = ne
+                if not rse:
+                    kw["replace_short_edges"] = rse
+                with fsutil.quiet():
+                    v2, e2, c2, _ = T.realise(at, k=d["k"], cmap=cm)
+                    res, ex = fsutil.call(ve.generate_mesh, v2, e2, c2, **kw)
+                tags.append("defaults_omitted")
+                if ex is not None:
+                    viol.append({"what": "generate_mesh raises when arguments equal to their defaults are omitted", "detail": {"omitted_call": kw, "exc": fsutil.exc_str(ex)}})
+                else:
+                    other = snapshot(res[0], res[1], res[2])
+                    if other["pos"] != after["pos"] or other["cyc"] != after["cyc"] or sorted(map(sorted, other["mesh"])) != sorted(map(sorted, after["mesh"])):
+                        viol.append({"what": "generate_mesh gives a different mesh when arguments equal to their defaults (ne=4, replace_short_edges=True) are omitted",
+                                     "detail": {"spelled": {"ne": ne, "replace_short_edges": rse}, "omitted_call": kw}})
+                res = v2 = e2 = c2 = None
         key = fsutil.state_hash([d["t"], snapshot(v, e, c)["cyc"], sorted(snapshot(v, e, c)["pos"].items())])
         cls = "%d/%s/%s" % (d["t"], d["k"], d["ops"])
         return {"key": key, "viol": viol, "known": known, "tags": sorted(set(tags)), "cls": cls, "nontrivial": "lost_points" in tags or "contracted" in tags}
